@@ -30,7 +30,7 @@ prop("C02",
 
 
 prop("C29",
-     units=["cols", "rows"],
+     units=["cols", "rows", "delegates"],
      level="proof",
      claim="column setters change exactly the named attribute of exactly that column, for any well-formed descriptor layout",
      assumptions=["A-itermut-drop (units/std_iter.rs)", "f64 `/`,`*`,`<`,`!=` are vstd's uninterpreted relations; their preconditions assumed (units/std_f64.rs)"],
